@@ -28,6 +28,7 @@ import (
 	standardlister "github.com/attestantio/dirk/services/lister/standard"
 	syncmaplocker "github.com/attestantio/dirk/services/locker/syncmap"
 	"github.com/attestantio/dirk/services/process"
+	"github.com/attestantio/dirk/services/ruler"
 	goruler "github.com/attestantio/dirk/services/ruler/golang"
 	"github.com/attestantio/dirk/services/signer"
 	standardsigner "github.com/attestantio/dirk/services/signer/standard"
@@ -188,9 +189,13 @@ func NewInstance(s *Sched, name string, cfg InstCfg) (*Instance, error) {
 		return fail(err)
 	}
 	unlockerW := &UnlockerWrap{Service: unlockerSvc, plan: cfg.Plan, s: s}
+	var signerRuler ruler.Service = rulerSvc
+	if cfg.Plan != nil {
+		signerRuler = &RulerWrap{Service: rulerSvc, plan: cfg.Plan, s: s}
+	}
 	signerSvc, err := standardsigner.New(ctx,
 		standardsigner.WithUnlocker(unlockerW), standardsigner.WithChecker(inst.Checker),
-		standardsigner.WithFetcher(inst.FetcherW), standardsigner.WithRuler(rulerSvc))
+		standardsigner.WithFetcher(inst.FetcherW), standardsigner.WithRuler(signerRuler))
 	if err != nil {
 		return fail(err)
 	}
